@@ -192,7 +192,7 @@ fn shape_configs() -> Vec<(Vec<Tag>, Vec<usize>)> {
     let mut out = vec![];
     for code in 0..5usize.pow(4) {
         let mut q = code; let mut tags = vec![];
-        for t in 0..4 { let c = q % 5; q /= 5; let from = if c == 0 { None } else { Some(c - 1) }; tags.push(Tag { name: names[t].to_string(), from, words: if from.is_none() { vec![0] } else { vec![] }, alias: false, entries: vec![entries[t]] }); }
+        for t in 0..4 { let c = q % 5; q /= 5; let from = if c == 0 { None } else { Some(c - 1) }; tags.push(Tag { name: names[t].to_string(), from, words: if from.is_none() { vec![0] } else { vec![] }, alias: from.is_none() && t % 2 == 1, entries: vec![entries[t]] }); }
         if (0..4).any(|i| tags[i].from == Some(i) || has_cycle(&tags, i)) { continue; }
         // depth >= 2 somewhere (shallower shapes are covered by the main box)
         if !(0..4).any(|i| tags[i].from.and_then(|f| tags[f].from).is_some()) { continue; }
@@ -218,6 +218,31 @@ fn shape_case(n: usize, tags: &[Tag], order: &[usize], a: &mut Acc) {
         match out_file(&sb, &t.name) {
             Some((_, g)) if nonblank(&g) == w.iter().filter(|x| !x.is_empty()).cloned().collect::<Vec<_>>() => a.ok += 1,
             got => { a.viols.push(Viol { key: format!("shape|{}|{}", t.name, cfg.replace('\n', " ").split_whitespace().collect::<Vec<_>>().join(" ")), desc: format!("tag `{}` (all tags run together): out/ has {:?}, the composition of its stages gives {:?} (exit {:?}); config: {}", t.name, got, w, o.code, cfg), case: json!({"config": cfg, "shape": true}) }); return; }
+        }
+    }
+    // `conv tag --recurse` of every pipeline tag (declaration orders: as numbered and reversed): the exported deromaniser is that of the
+    // tag's OWN root (roots differ in their alias), and the exported project run through the library gives the tag's file
+    let fwd: Vec<usize> = (0..tags.len()).collect(); let rev: Vec<usize> = (0..tags.len()).rev().collect();
+    if order != fwd.as_slice() && order != rev.as_slice() { return; }
+    for (i, t) in tags.iter().enumerate() {
+        if t.from.is_none() { continue; }
+        let Some(w) = reference(tags, i) else { continue };
+        let mut root = i; while let Some(f) = tags[root].from { root = f; }
+        a.evals += 1;
+        let o3 = run_cli(&sb.dir, &["conv", "tag", &t.name, "-p", ".", "-r", "-o", &format!("hist_{}.json", t.name)]); a.procs += 1;
+        let j: Option<Value> = sb.read(&format!("hist_{}.json", t.name)).and_then(|s| serde_json::from_str(&s).ok());
+        let want_into: Vec<String> = if tags[root].alias { formats::parse_alias(ALIAS).0 } else { vec![] };
+        let key = format!("shape-history|{}|{}", t.name, cfg.replace('\n', " ").split_whitespace().collect::<Vec<_>>().join(" "));
+        match &j {
+            Some(j) => {
+                let into: Vec<String> = j["into"].as_array().map(|v| v.iter().map(|x| x.as_str().unwrap_or("").to_string()).collect()).unwrap_or_default();
+                let words: Vec<String> = j["words"].as_array().map(|v| v.iter().map(|x| x.as_str().unwrap_or("").to_string()).collect()).unwrap_or_default();
+                let groups: Vec<RuleGroup> = history(tags, i);
+                let replay = guarded(5_000_000, || asca::run(&groups, &words, &into, &[]));
+                let ok_replay = matches!(&replay, Out::Ok(Ok(v)) if v.iter().filter(|x| !x.is_empty()).cloned().collect::<Vec<_>>() == w.iter().filter(|x| !x.is_empty()).cloned().collect::<Vec<_>>());
+                if into == want_into && ok_replay { a.ok += 1; } else { a.viols.push(Viol { key, desc: format!("tag `{}` (root `{}`): `conv tag -r` exported into-aliases {:?} (its root has {:?}); replaying the export gives {:?}, the tag's words are {:?}; config: {}", t.name, tags[root].name, into, want_into, replay.crash_desc(), w, cfg), case: json!({"config": cfg, "shape": true}) }); }
+            }
+            None => a.viols.push(Viol { key, desc: format!("tag `{}`: `conv tag -r` wrote no readable json (exit {:?}, stderr {}); config: {}", t.name, o3.code, o3.stderr.replace('\n', " | "), cfg), case: json!({"config": cfg, "shape": true}) }),
         }
     }
 }
@@ -258,7 +283,7 @@ pub fn run() -> i32 {
     if !cli_available() { r.machinery_errors.push(format!("{} not built", CLI)); return r.finish(); }
     let thorough = r.thorough();
     let (mt, me) = if thorough { (3, 2) } else { (2, 1) };
-    r.rule = format!("every config with 1..{} tags: `%` reference of each tag in {{none}} + all tags (so every chain, fork, forward reference, self-loop and longer cycle occurs), word lists on root tags (one or two files), extra word file on pipeline tags or not, {} rule-file entries per tag from 3 rule files of 3 named groups each with filter in {{none, !{{a}}, !{{b,a}}, ~{{c}}, ~{{c,a}}}} spelled with varying case, deromaniser-only alias on some root tags, tags declared in forward and reverse order; the real `asca seq -o -y` is run in a fresh directory and the single file under out/<tag>/ is compared (non-blank lines) with asca::run composed stage by stage by a reference that reads the same files with the harness's own readers; each tag is also run alone in a fresh copy (cold cache) and must write the same file, and with `-i` one numbered file per entry equal to the reference after that entry; `conv tag -r` must export the concatenated rule history, and running it through the library gives the same words when no words were added mid-pipeline; cyclic configs must be rejected without output within 20 s; plus every forest of depth >= 2 over four tags in all 24 declaration orders (all tags in one invocation, so the cache is shared); rule files contain empty lines after a group name and between sub rules. Non-trivial = comparisons that held on valid configs.", mt, me);
+    r.rule = format!("every config with 1..{} tags: `%` reference of each tag in {{none}} + all tags (so every chain, fork, forward reference, self-loop and longer cycle occurs), word lists on root tags (one or two files), extra word file on pipeline tags or not, {} rule-file entries per tag from 3 rule files of 3 named groups each with filter in {{none, !{{a}}, !{{b,a}}, ~{{c}}, ~{{c,a}}}} spelled with varying case, deromaniser-only alias on some root tags, tags declared in forward and reverse order; the real `asca seq -o -y` is run in a fresh directory and the single file under out/<tag>/ is compared (non-blank lines) with asca::run composed stage by stage by a reference that reads the same files with the harness's own readers; each tag is also run alone in a fresh copy (cold cache) and must write the same file, and with `-i` one numbered file per entry equal to the reference after that entry; `conv tag -r` must export the concatenated rule history, and running it through the library gives the same words when no words were added mid-pipeline; cyclic configs must be rejected without output within 20 s; plus every forest of depth >= 2 over four tags in all 24 declaration orders (all tags in one invocation, so the cache is shared; roots differ in their deromaniser, and `conv tag -r` of every pipeline tag must export its own root's); rule files contain empty lines after a group name and between sub rules. Non-trivial = comparisons that held on valid configs.", mt, me);
     r.assumptions.push("products larger than 6000 configs per tag count are walked with a fixed stride over the mixed-radix index (every choice of every dimension still occurs); the quick box (<= 2 tags, 1 entry) is complete".into());
     let configs = all_configs(mt, me);
     let mut t = Acc::default();
